@@ -2,6 +2,7 @@ package main
 
 import (
 	"fmt"
+	"go/constant"
 	"go/token"
 	"go/types"
 	"sort"
@@ -556,5 +557,370 @@ func sliceLengthsCompared(c *Ctx, r *Report, rule string) {
 	}
 	if n == 0 {
 		r.undecided(rule, "isDuplicate", "", "no list field found")
+	}
+}
+
+// dddDigits: isDDD says yes only when each of the three octets after the backslash is a digit, and dddToByte
+// weighs them 100, 10, 1: the \DDD escape is unambiguous, `\12x` is not an escape.
+func dddDigits(c *Ctx, r *Report, rule string) {
+	r.rule(rule, 2, "isDDD requires a digit at each of the offsets 0, 1 and 2; dddToByte is 100*d0 + 10*d1 + d2")
+	fn := c.ssaFunc("isDDD")
+	if fn == nil {
+		r.cerr(rule, "isDDD", "function not found")
+	} else {
+		r.fn("isDDD")
+		s := fn.Params[0]
+		indexOf := func(v ssa.Value) (int64, bool) {
+			switch t := v.(type) {
+			case *ssa.UnOp:
+				if ia, ok := t.X.(*ssa.IndexAddr); ok && ia.X == ssa.Value(s) {
+					return constIntOf(ia.Index)
+				}
+			case *ssa.Lookup:
+				if t.X == ssa.Value(s) {
+					return constIntOf(t.Index)
+				}
+			case *ssa.Index:
+				if t.X == ssa.Value(s) {
+					return constIntOf(t.Index)
+				}
+			}
+			return 0, false
+		}
+		digitAt := func(v ssa.Value) (int64, bool) {
+			call, ok := v.(*ssa.Call)
+			if !ok || calleeNameSSA(&call.Call) != "isDigit" || len(call.Call.Args) != 1 {
+				return 0, false
+			}
+			return indexOf(call.Call.Args[0])
+		}
+		var bad []string
+		n := 0
+		check := func(pos token.Pos, blk *ssa.BasicBlock, v ssa.Value) {
+			if k, isK := v.(*ssa.Const); isK && k.Value != nil && k.Value.ExactString() == "false" {
+				return
+			}
+			n++
+			have := map[int64]bool{}
+			if k, ok := digitAt(v); ok {
+				have[k] = true
+			}
+			for _, f := range factsAt(fn, blk) {
+				if k, ok := digitAt(f.Atom); ok && f.Holds {
+					have[k] = true
+				}
+			}
+			for _, k := range []int64{0, 1, 2} {
+				if !have[k] {
+					bad = append(bad, fmt.Sprintf("yes is possible without a digit at offset %d", k))
+				}
+			}
+		}
+		for _, b := range fn.Blocks {
+			ret, ok := b.Instrs[len(b.Instrs)-1].(*ssa.Return)
+			if !ok || len(ret.Results) != 1 {
+				continue
+			}
+			if phi, isPhi := ret.Results[0].(*ssa.Phi); isPhi && phi.Block() == b {
+				for i, e := range phi.Edges {
+					check(ret.Pos(), b.Preds[i], e)
+				}
+			} else {
+				check(ret.Pos(), b, ret.Results[0])
+			}
+		}
+		r.check(n > 0 && len(bad) == 0, rule, "isDDD", c.pos(fn.Pos()), "digits at 0, 1, 2", "%s: a backslash followed by two digits and another character is taken for a \\DDD escape: the text form is ambiguous (`\\12x` and `\\012`-style escapes collide), names the packer accepts are refused by IsDomainName and the other way round", strings.Join(uniqStrings(bad), "; "))
+	}
+	fn = c.ssaFunc("dddToByte")
+	if fn == nil {
+		r.cerr(rule, "dddToByte", "function not found")
+		return
+	}
+	r.fn("dddToByte")
+	s := fn.Params[0]
+	type lin struct {
+		w    map[int64]int64
+		k    int64
+		okay bool
+	}
+	var eval func(v ssa.Value, depth int) lin
+	eval = func(v ssa.Value, depth int) lin {
+		if depth > 20 {
+			return lin{}
+		}
+		if k, ok := constIntOf(v); ok {
+			return lin{w: map[int64]int64{}, k: k, okay: true}
+		}
+		switch t := v.(type) {
+		case *ssa.Convert:
+			return eval(t.X, depth+1)
+		case *ssa.ChangeType:
+			return eval(t.X, depth+1)
+		case *ssa.UnOp:
+			if ia, ok := t.X.(*ssa.IndexAddr); ok && ia.X == ssa.Value(s) {
+				if k, isK := constIntOf(ia.Index); isK {
+					return lin{w: map[int64]int64{k: 1}, okay: true}
+				}
+			}
+		case *ssa.Lookup:
+			if k, isK := constIntOf(t.Index); isK && t.X == ssa.Value(s) {
+				return lin{w: map[int64]int64{k: 1}, okay: true}
+			}
+		case *ssa.BinOp:
+			a, b := eval(t.X, depth+1), eval(t.Y, depth+1)
+			if !a.okay || !b.okay {
+				return lin{}
+			}
+			out := lin{w: map[int64]int64{}, okay: true}
+			switch t.Op {
+			case token.ADD, token.SUB:
+				sgn := int64(1)
+				if t.Op == token.SUB {
+					sgn = -1
+				}
+				for k, w := range a.w {
+					out.w[k] += w
+				}
+				for k, w := range b.w {
+					out.w[k] += sgn * w
+				}
+				out.k = a.k + sgn*b.k
+				return out
+			case token.MUL:
+				if len(b.w) == 0 {
+					a, b = b, a
+				}
+				if len(a.w) != 0 {
+					return lin{}
+				}
+				for k, w := range b.w {
+					out.w[k] = w * a.k
+				}
+				out.k = a.k * b.k
+				return out
+			}
+		}
+		return lin{}
+	}
+	okAll, n := true, 0
+	detail := ""
+	for _, b := range fn.Blocks {
+		ret, ok := b.Instrs[len(b.Instrs)-1].(*ssa.Return)
+		if !ok || len(ret.Results) != 1 {
+			continue
+		}
+		n++
+		l := eval(ret.Results[0], 0)
+		if !l.okay {
+			okAll, detail = false, "the returned value is not a linear form of the three octets"
+			continue
+		}
+		if l.w[0] != 100 || l.w[1] != 10 || l.w[2] != 1 || len(l.w) != 3 || ((l.k+48*111)%256+256)%256 != 0 {
+			okAll, detail = false, fmt.Sprintf("the returned value is %d*s[0] + %d*s[1] + %d*s[2] %+d", l.w[0], l.w[1], l.w[2], l.k)
+		}
+	}
+	r.check(n > 0 && okAll, rule, "dddToByte", c.pos(fn.Pos()), "100*d0 + 10*d1 + d2", "%s: a \\DDD escape does not decode to the octet its digits name, so the text escapeByte prints does not pack back to the octets it was printed from", detail)
+}
+
+// typeHasName: the RR types with a domain name among their wire fields.
+func typesWithNames(c *Ctx) map[string]bool {
+	out := map[string]bool{}
+	for _, t := range c.rrTypes() {
+		kinds, _, err := wireKinds(t.Fields)
+		if err != nil {
+			continue
+		}
+		for _, k := range kinds {
+			if k == "N" || k == "C" || k == "N*" {
+				out[t.Name] = true
+			}
+		}
+	}
+	return out
+}
+
+// separatorCount: a String method without loops emits the same number of literal separators (blanks and tabs
+// in its string constants and format strings) on every path: the zone parser reads a record's fields by position,
+// and a separator that is there for one value of a field and missing for another shifts every later token.
+var separatorExempt = map[string]string{
+	"L32.String": "the path with fewer separators is the one for a nil Locator32, which neither the unpacker (it always stores four octets) nor the parser (it refuses a missing locator) produces; the address and its separator are left out together",
+}
+
+func separatorCount(c *Ctx, r *Report, rule string) {
+	r.rule(rule, 40, "a loop-free String method emits the same number of literal separators on every path")
+	n := 0
+	for _, T := range c.rrTypes() {
+		fn := c.ssaFunc(T.Name + ".String")
+		if fn == nil {
+			continue
+		}
+		type iv struct{ lo, hi int }
+		memo := map[ssa.Value]iv{}
+		onStack := map[ssa.Value]bool{}
+		loop := false
+		blanks := func(s string) int { return strings.Count(s, " ") + strings.Count(s, "\t") }
+		var eval func(v ssa.Value) iv
+		eval = func(v ssa.Value) iv {
+			if x, ok := memo[v]; ok {
+				return x
+			}
+			if onStack[v] {
+				loop = true
+				return iv{}
+			}
+			onStack[v] = true
+			defer delete(onStack, v)
+			var out iv
+			switch t := v.(type) {
+			case *ssa.Const:
+				if t.Value != nil && t.Value.Kind() == constant.String {
+					k := blanks(constant.StringVal(t.Value))
+					out = iv{k, k}
+				}
+			case *ssa.BinOp:
+				if t.Op == token.ADD {
+					a, b := eval(t.X), eval(t.Y)
+					out = iv{a.lo + b.lo, a.hi + b.hi}
+				}
+			case *ssa.Phi:
+				first := true
+				for _, e := range t.Edges {
+					x := eval(e)
+					if first {
+						out, first = x, false
+						continue
+					}
+					if x.lo < out.lo {
+						out.lo = x.lo
+					}
+					if x.hi > out.hi {
+						out.hi = x.hi
+					}
+				}
+			case *ssa.Call:
+				if calleeNameSSA(&t.Call) == "fmt.Sprintf" && len(t.Call.Args) > 0 {
+					out = eval(t.Call.Args[0])
+				}
+			}
+			memo[v] = out
+			return out
+		}
+		// string builders and loops: no verdict
+		usesBuilder := false
+		allInstrs(fn, func(in ssa.Instruction) {
+			if call, ok := in.(*ssa.Call); ok && strings.Contains(calleeNameSSA(&call.Call), "Builder") {
+				usesBuilder = true
+			}
+		})
+		var bad []string
+		total := iv{-1, -1}
+		for _, b := range fn.Blocks {
+			ret, ok := b.Instrs[len(b.Instrs)-1].(*ssa.Return)
+			if !ok || len(ret.Results) != 1 {
+				continue
+			}
+			x := eval(ret.Results[0])
+			if total.lo < 0 {
+				total = x
+			} else {
+				if x.lo < total.lo {
+					total.lo = x.lo
+				}
+				if x.hi > total.hi {
+					total.hi = x.hi
+				}
+			}
+		}
+		if loop || usesBuilder || total.lo < 0 {
+			continue
+		}
+		n++
+		r.fn(T.Name + ".String")
+		construct := T.Name + ".String"
+		if why, ok := separatorExempt[construct]; ok {
+			r.ok(rule, construct, c.pos(fn.Pos()), "exempt: "+why)
+			continue
+		}
+		if total.lo != total.hi {
+			bad = append(bad, fmt.Sprintf("%d on one path, %d on another", total.lo, total.hi))
+		}
+		r.check(len(bad) == 0, rule, construct, c.pos(fn.Pos()), fmt.Sprintf("%d separators", total.lo), "%s.String emits a different number of separators depending on the record's values (%s): the parser, which reads the fields by position, takes the next token (or the next line of the zone) for the field whose separator is missing", T.Name, strings.Join(bad, "; "))
+	}
+	if n == 0 {
+		r.undecided(rule, "String methods", "", "no loop-free String method found")
+	}
+}
+
+// tablesInStep: the mnemonic table the printer uses and the one the parser uses are changed together: a function
+// that inserts into / deletes from one of a pair does the same to the other in the same block.
+func tablesInStep(c *Ctx, r *Report, rule string) {
+	r.rule(rule, 2, "every function that inserts into or deletes from TypeToString (ClassToString) does the same to StringToType (StringToClass), and conversely")
+	pairs := map[string]string{"TypeToString": "StringToType", "StringToType": "TypeToString", "ClassToString": "StringToClass", "StringToClass": "ClassToString"}
+	n := 0
+	for _, fn := range c.allFuncs() {
+		if fn.Synthetic != "" {
+			continue
+		}
+		ops := map[string]map[*ssa.BasicBlock]bool{} // "update TypeToString" -> blocks
+		tableOf := func(v ssa.Value) string {
+			ld, ok := v.(*ssa.UnOp)
+			if !ok {
+				return ""
+			}
+			g, ok := ld.X.(*ssa.Global)
+			if !ok {
+				return ""
+			}
+			if _, ok := pairs[g.Name()]; ok {
+				return g.Name()
+			}
+			return ""
+		}
+		add := func(op, table string, b *ssa.BasicBlock) {
+			k := op + " " + table
+			if ops[k] == nil {
+				ops[k] = map[*ssa.BasicBlock]bool{}
+			}
+			ops[k][b] = true
+		}
+		allInstrs(fn, func(in ssa.Instruction) {
+			switch t := in.(type) {
+			case *ssa.MapUpdate:
+				if tb := tableOf(t.Map); tb != "" {
+					add("insert", tb, t.Block())
+				}
+			case *ssa.Call:
+				if calleeNameSSA(&t.Call) == "builtin.delete" {
+					if tb := tableOf(t.Call.Args[0]); tb != "" {
+						add("delete", tb, t.Block())
+					}
+				}
+			}
+		})
+		if len(ops) == 0 {
+			continue
+		}
+		var keys []string
+		for k := range ops {
+			keys = append(keys, k)
+		}
+		sort.Strings(keys)
+		for _, k := range keys {
+			op, table, _ := strings.Cut(k, " ")
+			n++
+			r.fn(fnDisplay(fn))
+			other := op + " " + pairs[table]
+			var bad []string
+			for b := range ops[k] {
+				if !ops[other][b] {
+					bad = append(bad, fmt.Sprintf("block %d", b.Index))
+				}
+			}
+			sort.Strings(bad)
+			r.check(len(bad) == 0, rule, fnDisplay(fn)+":"+k, c.pos(fn.Pos()), "mirrored in "+pairs[table], "%s does a %s on %s that is not mirrored on %s: after it the printer's and the parser's mnemonic tables disagree, and bitmaps and type-covered fields print a mnemonic the parser refuses (or the parser accepts one the printer never writes)", fnDisplay(fn), op, table, pairs[table])
+		}
+	}
+	if n == 0 {
+		r.undecided(rule, "tables", "", "no function changes the mnemonic tables")
 	}
 }
